@@ -13,6 +13,7 @@ import (
 	"go/types"
 	"io"
 	"os"
+	"path/filepath"
 	"runtime"
 	"runtime/debug"
 	"slices"
@@ -76,6 +77,9 @@ type Machine struct {
 	clock          value
 	clockSymbolic  bool
 	asyncTimerChan bool
+	ghostDepth     int    // > 0 inside vndGhost: no scheduling points, no race check
+	logFrame       *frame // innermost frame and instruction, kept only while logging
+	logInstr       ssa.Instruction
 	reportInReplay bool
 	witnessDone    *sync.Map
 	NoDomain       bool
@@ -753,6 +757,9 @@ func runFrame(fr *frame) {
 					panic(pathAbort{abUnwind, "init budget"})
 				}
 			}
+			if m.Log != nil {
+				m.logFrame, m.logInstr = fr, instr
+			}
 			if visitInstr(fr, instr) == kReturn {
 				return
 			}
@@ -808,4 +815,22 @@ func doRecover(caller *frame) value {
 		}
 	}
 	return iface{}
+}
+
+// whereAmI names the call chain of the running goroutine (schedule log only).
+func (m *Machine) whereAmI() string {
+	fr := m.logFrame
+	if fr == nil {
+		return "?"
+	}
+	pos := ""
+	if m.logInstr != nil && m.logInstr.Pos().IsValid() {
+		p := m.prog.Fset.Position(m.logInstr.Pos())
+		pos = fmt.Sprintf(" %s:%d", filepath.Base(p.Filename), p.Line)
+	}
+	var chain []string
+	for f := fr; f != nil && len(chain) < 4; f = f.caller {
+		chain = append(chain, f.fn.RelString(nil))
+	}
+	return strings.Join(chain, " < ") + pos
 }
